@@ -98,14 +98,14 @@ claim('C02',
   "satisfying the requested constraints exists and Infeasible otherwise; every objective-variable bound admits every attainable value. "
   "Tied to the code by R_lp (problems incl. bounds and name partition); M_status compares the reported status with feasibility by "
   "enumeration in Coq and flags any escaping exception. F01-F06 repaired (corpus/C02).",
-  "C02: CBC assumed to satisfy milp_ok; 'admissible' = -stab only on two-sided instances, distinct criteria, non-negative multipliers, "
-  "generous cut-off within 1..max rank, greedy cut-off >= 1.")
+  "C02: CBC assumed to satisfy milp_ok; 'admissible' = -stab only on two-sided instances, distinct criteria, non-negative multipliers "
+  "(any generous / greedy cut-off).")
 claim('C03',
   "Coq theorems: the stages run for each criterion are the documented objectives (defaults included), and with one criterion the printed "
   "matching is lexicographically optimal for them among ALL matchings satisfying the requested constraints, for every oracle satisfying the "
   "MILP contract (any tie-break). Tied to the code by R_lp; M_lex judges the printed matching by enumeration in Coq (trade-off instances "
   "included so that criteria disagree).",
-  "C03: CBC assumed to satisfy milp_ok; criteria whose stage list is empty (maximum rank 0) are excluded by hypothesis.")
+  "C03: CBC assumed to satisfy milp_ok.")
 claim('C04',
   "Coq theorems: the printed matching is LexOpt for the concatenated stage lists in list order over all feasible matchings (so a later "
   "criterion never worsens an earlier one), and the list order is the position order whatever the flag order (parser theorem). Tied to the "
